@@ -15,7 +15,8 @@ BASE_WEIGHTS = {"mk": 4, "mk_child": 4, "add": 2, "set": 4, "set_parent": 3, "bs
                 "tag_remove": 1, "node_parent": 2, "follow": 2, "unfollow": 1, "set_p": 1, "k_rename": 1, "h_doc": 1, "delete": 2, "expunge": 1,
                 "flush": 4, "commit": 2, "rollback": 1, "begin_nested": 0, "sp_commit": 0, "sp_rollback": 0, "close": 0, "requery": 1, "get": 1,
                 "lazy": 1, "expire": 0, "expire_all": 0, "refresh": 0, "mut_data": 0, "mut_items": 0, "ext_update": 0, "merge": 0, "drop": 0,
-                "gc": 0, "pickle_rt": 0, "populate_existing": 0, "q_ops": 1, "g_ops": 2, "expire_attr": 0, "read": 0, "m_ops": 0, "m_reload": 0}
+                "gc": 0, "pickle_rt": 0, "populate_existing": 0, "q_ops": 1, "g_ops": 2, "expire_attr": 0, "read": 0, "m_ops": 0, "m_reload": 0, "set_k": 1, "bulk": 0,
+                "row_replace": 0}
 
 
 def setup():
@@ -26,7 +27,7 @@ def setup():
     OS.freeze_gc()
 
 
-def make_gen(weights, cfg_fn=None, nmin=8, nmax=40, shape=None):
+def make_gen(weights, cfg_fn=None, nmin=8, nmax=40, shape=None, fault_fn=None):
     w = dict(BASE_WEIGHTS)
     w.update(weights)
     ops = [k for k, n in w.items() for _ in range(n)]
@@ -42,8 +43,17 @@ def make_gen(weights, cfg_fn=None, nmin=8, nmax=40, shape=None):
         prog = [[rng.choice(pool), rng.randrange(64), rng.randrange(64)] for _ in range(rng.randint(nmin, nmax))]
         if shape and rng.random() < 0.6:
             prog = shape(rng, pool, cfg) or prog
-        return {"cfg": cfg, "prog": prog, "faults": []}
+        return {"cfg": cfg, "prog": prog, "faults": fault_fn(rng, cfg, prog) if fault_fn else []}
     return gen_case
+
+
+def txn_faults(rng, cfg, prog):
+    """faults-on configuration for the transaction-boundary properties (a quarter of the histories): the driver's ROLLBACK or COMMIT
+    fails, or an after_rollback hook raises, at a seeded ordinal"""
+    if rng.random() > 0.25:
+        return []
+    kind = rng.choice(("rollback", "rollback", "commit", "listener:after_rollback"))
+    return [[kind, rng.randint(1, 3), "raise" if kind.startswith("listener") else "error"]]
 
 
 def txn_blocks(rng, pool, cfg=None):
@@ -102,11 +112,11 @@ def make_run(props):
 
 
 def define(g, pid, props, title, technique, level_text, level_note, weights=None, cfg_fn=None, quick=4000, nmin=8, nmax=40, level="exploration",
-           rule=None, shape=None):
+           rule=None, shape=None, fault_fn=None):
     g.update(ID=pid, LEVEL=level, ENGINE="ormsim", TECHNIQUE=technique, LEVEL_TEXT=level_text, LEVEL_NOTE=level_note,
              TIERS={"quick": {"runs": quick, "secs": 35}, "thorough": {"runs": quick * 60, "secs": 420, "hashseeds": [0, 1, 2, 3]}},
              SHRINK=["prog", "faults"], MIN_BUDGET=250,
              RULE=rule or ("history = seeded op list with state-relative arguments + universe/config; distinct = digest of config, ops and "
                            "outcomes; non-trivial = at least one flush that had pending changes"),
              COMPONENTS_REAL=COMPONENTS_REAL, COMPONENTS_STUB=COMPONENTS_STUB, ASSUMPTIONS=ASSUMPTIONS, setup=setup,
-             gen_case=make_gen(weights or {}, cfg_fn, nmin, nmax, shape), run_case=make_run(tuple(props)))
+             gen_case=make_gen(weights or {}, cfg_fn, nmin, nmax, shape, fault_fn), run_case=make_run(tuple(props)))
